@@ -54,7 +54,7 @@ Print Assumptions C12_string_to_int_checked.
 Theorem C12_simple_atoi_is_strtol : forall s,
   fst (simple_atoi s) = fst (strtol10 s) /\
   (snd (strtol10 s) <> s -> snd (simple_atoi s) = snd (strtol10 s)).
-Proof. exact (fun s => conj (simple_atoi_value s) (simple_atoi_end s)). Qed.
+Proof. exact simple_atoi_strtol. Qed.
 Print Assumptions C12_simple_atoi_is_strtol.
 
 Theorem C12_no_sign_atoi_is_strtol : forall s,
@@ -66,7 +66,7 @@ Print Assumptions C12_no_sign_atoi_is_strtol.
 (* int arithmetic: when the result fits in int no intermediate of the negative accumulation
    overflows, so the unbounded model is what the C code computes *)
 Theorem C12_atoi_no_intermediate_overflow : forall s,
-  in_int (fst (simple_atoi s)) = true -> simple_atoi_int s = Some (fst (simple_atoi s)).
+  fits_int (fst (simple_atoi s)) = true -> simple_atoi_int s = Some (fst (simple_atoi s)).
 Proof. exact simple_atoi_no_overflow. Qed.
 Print Assumptions C12_atoi_no_intermediate_overflow.
 
